@@ -172,8 +172,21 @@ def lex_inputs(ctx, n_random, exhaustive_len, sample_len4=0.0):
     return out, nex
 
 
+def special_name_graphs():
+    """include names containing each punctuation / control character that is legal between the quotes, next to a twin file
+    whose name lacks that character: the name looked up, reported and requested is the one written, byte for byte"""
+    out = []
+    for ch in list("!#$%&'()*+,-./:;<=>?@[\\]^_`{|}~") + ['\t', ' ', '\r', '\x7f', '\\\\', '\\n', '%s', '\\"'[:1]]:
+        nm = ('l' + ch + 'm').encode('latin1')
+        main = b'include "' + nm + b'"\nx := 1\n'
+        out.append((b'm', {b'm': main, nm: b'y := 2 ;', b'lm': b'z := 3 ;'}))
+        out.append((b'm', {b'm': main, b'lm': b'z := 3 ;'}))
+        out.append((nm, {nm: b'include "lm"\ninclude "' + nm + b'"', b'lm': b'include "' + nm + b'"'}))
+    return out
+
+
 def include_graphs(ctx, n):
-    cases = []
+    cases = special_name_graphs()
     r = ctx.rnd
     for _ in range(n):
         # file names: mostly plain; sometimes boundary spellings (the empty name, a blank, a case twin, a path, a name with
